@@ -27,7 +27,10 @@ RULE = ("T1: Pre, catch(Inner, Catcher, Recovery), Post with Inner in {throw(B);
         "T3 (thorough): G of depth 3 over a reduced alphabet; T4: balls containing attributed variables (dif/2, "
         "freeze/2, put_atts/2, a two-variable dif) in 4 ball shapes, constraint posted before or inside the catch/3, "
         "thrown directly, past a non-matching catch/3 or out of setup_call_cleanup/3, probes on the copy and on the "
-        "original (forbidden/allowed binding, wake-up, attribute read, independence) after or inside the recovery. "
+        "original (forbidden/allowed binding, wake-up, attribute read, independence) after or inside the recovery; "
+        "T5: setup_call_cleanup/3 (single, nested inside, nested outside) whose cleanup handler runs its own catch/3 "
+        "with a deterministic, failing or backtracked-into recovery goal (7 handlers) x 7 protected goals (exception, "
+        "error, compound ball, failure, choice point, exit) x 5 posts x 5 outer catch/3 forms. "
         "A case is one goal. Non-trivial: REF's run catches a "
         "ball, or a ball passes a non-matching catch/3 or a pending cleanup, or a cleanup runs.")
 LEVEL_TEXT = ("exhaustive within the stated nesting bound; answers, ball and the complete side-effect log are compared "
@@ -329,14 +332,56 @@ def run_t4(w, cases, acc):
 
 def shards(tier):
     sh = [("T1", k, 8) for k in range(8)] + [("T2", k, 16) for k in range(16)] + [("T4", 0, 1)]
+    sh += [("T5", k, 4) for k in range(4)]
     if tier == "thorough":
         sh += [("T3", k, 96) for k in range(96)]
     return sh
 
 
+# ---------------------------------------------------------------------------
+# family T5: cleanup handlers that themselves catch an exception, with a recovery goal that is
+# deterministic, fails, or is re-entered by backtracking, while the protected goal exits by an
+# exception, failure, a cut or deterministically.  The exception in flight (parked while the
+# handler runs) must survive whatever the handler's own catch/3 does.  Handlers never let an
+# exception out (there Scryer and REF differ by design: see ASSUMPTIONS).
+
+Y5 = V("_CY5")   # _C*: projected away (whether a handler's bindings survive is not compared)
+_INNER = ("throw", "i")
+_RETRY = (";", ("=", Y5, 1), ("=", Y5, 2))
+T5_CLEANUPS = [
+    (",", ("catch", _INNER, "i", log("r")), log("k")),
+    (",", ("catch", _INNER, "i", _RETRY), (",", ("==", Y5, 2), log("k"))),
+    (",", ("catch", _INNER, "i", _RETRY), log(("k", Y5))),
+    (";", ("catch", _INNER, "i", "fail"), log("k")),
+    (",", ("catch", ("catch", _INNER, "j", "true"), "i", _RETRY), (",", ("==", Y5, 2), log("k"))),
+    (",", ("catch", ("is", V("_CN5"), ("+", "foo", 1)), ("error", V("_CE5"), V("_C5")), _RETRY), (",", ("==", Y5, 2), log("k"))),
+    (",", ("catch", "true", "i", "true"), log("k")),
+]
+T5_GOALS = [("throw", "e1"), "true", "fail", (";", ("=", X, 1), ("=", X, 2)), (";", ("=", X, 1), ("throw", "e1")),
+            ("arg", "x", ("f", "a"), V("_G5")), ("throw", ("f", X, mklist(["s"]), BIG))]
+T5_POSTS = ["true", "!", "fail", log("p"), ("throw", "x")]
+
+
+def t5_goals(tier):
+    for cl in T5_CLEANUPS:
+        for g in T5_GOALS:
+            sccs = [("setup_call_cleanup", "true", g, cl),
+                    ("setup_call_cleanup", "true", ("setup_call_cleanup", "true", g, cl), log("outer")),
+                    ("setup_call_cleanup", "true", ("setup_call_cleanup", "true", g, log("inner")), cl)]
+            for scc in sccs:
+                for post in T5_POSTS:
+                    body = S.conj([x for x in (scc, post) if x != "true"])
+                    yield fresh_anon(body)
+                    yield fresh_anon(("catch", body, Z, log(("caught", Z))))
+                    yield fresh_anon(("catch", body, "e1", log("caught_e1")))
+                    yield fresh_anon(("catch", body, ("error", V("_T5"), V("_C6")), log("caught_err")))
+                    yield fresh_anon(("catch", ("catch", body, "nomatch", log("wrong")), Z, log(("outer_caught", Z))))
+
+
 def goals_of(shard, tier):
     fam, k, m = shard
-    gen = {"T1": t1_goals, "T2": lambda: t2_goals(tier), "T3": lambda: t3_goals(tier)}[fam]()
+    gen = {"T1": t1_goals, "T2": lambda: t2_goals(tier), "T3": lambda: t3_goals(tier),
+           "T5": lambda: t5_goals(tier)}[fam]()
     for i, g in enumerate(gen):
         if i % m == k:
             yield g
